@@ -45,4 +45,10 @@ CLAIMED["C05"] = {
     "technique": "Lean 4 proof (induction over schedules of a transactional store model) + differential correspondence run on deterministic call-level interleavings",
 }
 
+CLAIMED["C06"] = {
+    "text": "Theorems (Lean, every store state, every call, any number of tags/rows, every fault point): the statement-level model of insert/replace/remove/remove_all (each call as its SQL statements inside one transaction) equals the one-shot semantics when no statement fails; a call that reports an error leaves the database exactly as it was; under any fault the call has its complete effect or none (all_or_nothing); the k-th tag-insert fault is reached exactly by inserts with more than k tags; a failed call is as if never made; after a crash the store is a prefix state containing every acknowledged call. Fault enumeration on the real code: SQLite RAISE(ABORT) triggers installed through a second connection at every statement class and every k, each followed by a full dump; SIGKILL campaign: a child process is killed at arbitrary instants inside multi-statement calls, the store is reopened with the previous key, the dump must be the acknowledged prefix state (or one call more) and the store must accept further calls.",
+    "note": SQL + "Re-key, profile-creation and copy-import faults are exercised by C08 / C18's checks; OS crash / power loss is out of scope as the property says; SIGKILL instants are sampled (40 quick / 600 thorough), not enumerated.",
+    "technique": "Lean 4 proof over a statement-level fault model + fault enumeration by SQLite triggers + SIGKILL campaign against the real code",
+}
+
 NOT_YET = {}
